@@ -124,6 +124,71 @@ def run_crash(case):
     return res
 
 
+def run_recover(case):
+    """Saving INTO the debris of a crash: every distinct crash image of an overwriting save (stale / torn temporary sibling, old or new file under the
+    final name) becomes the directory a further save is made into.  That save must succeed, produce a checkpoint that restores exactly, and be
+    atomic itself (every prefix x torn offset of ITS I/O log leaves the final name holding the image's content or the new checkpoint)."""
+    res = Res()
+    cfg = dict(case["cfg"])
+    th = case["thorough"]
+    fs = MemFS()
+    p = Probe(cfg, base=case["base"], fs=fs)
+    p.steps(2)
+    if p.exc is not None:
+        res.bump("aborted")
+        return res
+    try:
+        with env.quiet(), p._stderr(), mounted(fs):
+            p.sampler.save_state(P)
+        p.steps(1)
+        base_files = dict(fs.files)
+        start = len(fs.log)
+        with env.quiet(), p._stderr(), mounted(fs):
+            p.sampler.save_state(P)
+    except Exception as e:
+        res.bump("aborted")  # owned by the crash phase
+        return res
+    ops = fs.log[start:]
+    p.steps(1)
+    truth = _truth(p)
+    seen = set()
+    for k in range(len(ops) + 1):
+        torn = [None]
+        if k < len(ops) and ops[k][0] == "write":
+            torn = [None] + _offsets(len(ops[k][3]), th)
+        for t in torn:
+            img = fs.image(base_files, ops, k, torn=t)
+            key = tuple(sorted((n, hash(b)) for n, b in img.items()))
+            if key in seen:
+                continue
+            seen.add(key)
+            fs2 = _fs_with(img)
+            cc = dict(case, k=k, torn=t)
+            if case.get("k") is not None and (case["k"], case.get("torn")) != (k, t):
+                continue
+            debris = sorted(n for n in img if n != P)
+            start2 = len(fs2.log)
+            try:
+                with env.quiet(), p._stderr(), mounted(fs2):
+                    p.sampler.save_state(P)
+            except Exception as e:
+                res.violate(f"recover:save-raises:{type(e).__name__}", f"save_state into the directory left by a crash (after {k} of {len(ops)} I/O operations of the previous save; files {sorted(img)}) raised {e!r} (cfg={cfg})", cc)
+                continue
+            res.evals += 1
+            res.trans += 1
+            try:
+                s2 = _load_fresh(cfg, _fs_with(dict(fs2.files)), P)
+                if not _state_equal(s2, truth):
+                    res.violate("recover:restore-not-exact", f"the checkpoint saved into the debris of a crash (files before: {sorted(img)}) does not restore the state that was saved (cfg={cfg})", cc)
+            except Exception as e:
+                res.violate(f"recover:restore-raises:{type(e).__name__}", f"the checkpoint saved into the debris of a crash cannot be loaded: {e!r}", cc)
+            _enumerate_crashes(res, fs2, P, dict(img), fs2.log[start2:], cc, False, "save-into-debris")
+            res.outcome(("recover", k, t, tuple(debris)), nontrivial=bool(debris))
+    res.states += len(seen)
+    res.traces += 1
+    return res
+
+
 def _fs_with(files):
     fs = MemFS()
     fs.dirs.add("/memfs/ck")
@@ -393,7 +458,7 @@ def run_resume1(case):
     return r
 
 
-KINDS = {"crash_run": run_crash_run, "crash": run_crash, "resume": run_resume, "resume1": run_resume1}
+KINDS = {"recover": run_recover, "crash_run": run_crash_run, "crash": run_crash, "resume": run_resume, "resume1": run_resume1}
 
 FACTORS = [
     ("clustering", [False, True]),
@@ -423,6 +488,7 @@ def plan(ctx):
                 crash.append({"kind": "crash_run", "cfg": dict(clustering=clu, eval=ev, n_particles=16, n_total=64), "driver": driver, "base": ctx.seed, "thorough": th})
     crash.append({"kind": "crash", "cfg": dict(clustering=False, eval="blobs", blob_form="nan", n_particles=16), "api": "sampler", "base": ctx.seed, "thorough": th})
     crash.append({"kind": "crash_run", "cfg": dict(clustering=True, eval="blobs", blob_form="nan", n_particles=16, n_total=64), "driver": "run", "base": ctx.seed, "thorough": th})
+    crash += [{"kind": "recover", "cfg": dict(clustering=clu, eval=ev, n_particles=16), "base": ctx.seed, "thorough": th} for clu, ev in ((False, "scalar"), (True, "blobs"), (False, "poolobj"))]
     ctx.explore("crash-points", crash)
     strength = 3 if th else 2
     rows = lattice.covering_array(FACTORS, strength=strength, seed=ctx.seed)
